@@ -760,7 +760,8 @@ theorem delRaw_spec {e : Env} (he : WFEnv e) {s : St} (hi : Inv e s) {h : Handle
     {name : String} {st : Stored} (hst : alGet h.objs name = some st) :
     ∃ s' h', h.delRaw name true s = (.ok h', s') ∧ Inv e s' ∧ HOK s' h' ∧ h'.baseDir = h.baseDir ∧
       s'.next = s.next ∧ (∀ q, isInternal q = false → get? s'.raw q = get? s.raw q) ∧
-      (∀ p r u, ObjAt s'.raw p r u ↔ (ObjAt s.raw p r u ∧ p ≠ st.path)) := by
+      (∀ p r u, ObjAt s'.raw p r u ↔ (ObjAt s.raw p r u ∧ p ≠ st.path)) ∧
+      (∀ q, q.head? ≠ some .toc → get? s'.raw q = none ∨ get? s'.raw q = get? s.raw q) := by
   obtain ⟨⟨b, m, hb, hbase, hbg, hhost⟩, hobjs, hknd⟩ := hh
   obtain ⟨r, u, hname, rfl, hex⟩ := (hobjs name st).mp hst
   simp only
@@ -824,8 +825,18 @@ theorem delRaw_spec {e : Env} (he : WFEnv e) {s : St} (hi : Inv e s) {h : Handle
       (∀ q, q.head? = some .toc → get? tf q = get? s1.raw q) → KeysOK tf → PClosed tf →
       Inv e ⟨tf, s1.c, s1.next⟩ ∧ HOK ⟨tf, s1.c, s1.next⟩ { h with objs := alErase h.objs r.name } ∧
       (∀ q, isInternal q = false → get? tf q = get? s.raw q) ∧
-      (∀ p r' u', ObjAt tf p r' u' ↔ (ObjAt s.raw p r' u' ∧ p ≠ objP)) := by
+      (∀ p r' u', ObjAt tf p r' u' ↔ (ObjAt s.raw p r' u' ∧ p ≠ objP)) ∧
+      (∀ q, q.head? ≠ some .toc → get? tf q = none ∨ get? tf q = get? s.raw q) := by
     intro tf drop _ hdrop gf ff hkf hcf
+    have hmono : ∀ q, q.head? ≠ some .toc → get? tf q = none ∨ get? tf q = get? s.raw q := by
+      intro q hqt
+      by_cases hq0 : q = []
+      · subst hq0; right; simp
+      · rw [gf q hq0 hqt]
+        split_ifs
+        · exact Or.inl rfl
+        · exact Or.inl rfl
+        · exact Or.inr rfl
     have hobjf : ∀ p r' u', ObjAt tf p r' u' ↔ (ObjAt s.raw p r' u' ∧ p ≠ objP) := by
       intro p r' u'
       constructor
@@ -871,7 +882,7 @@ theorem delRaw_spec {e : Env} (he : WFEnv e) {s : St} (hi : Inv e s) {h : Handle
           rw [isInternal_append] at hq; simp [isInternal, Key.internal] at hq
         · rintro rfl
           rw [hobjP, isInternal_append] at hq; simp [isInternal, Key.internal] at hq
-    refine ⟨⟨hkf, hcf, ?_, (htoc1.frame ff).congr (fun p r' u' => hobjf' p r' u') husedf, hsc1.congr husedf, ?_⟩, ?_, huser, hobjf⟩
+    refine ⟨⟨hkf, hcf, ?_, (htoc1.frame ff).congr (fun p r' u' => hobjf' p r' u') husedf, hsc1.congr husedf, ?_⟩, ?_, huser, hobjf, hmono⟩
     · constructor
       · intro q n hq hqt hg
         rw [gf q hq hqt] at hg
@@ -978,7 +989,7 @@ theorem delRaw_spec {e : Env} (he : WFEnv e) {s : St} (hi : Inv e s) {h : Handle
     have h3 := rawDel_ok (t := t2) (p := b ++ [.metaDir m]) (by simp) hdir2
     set t3 := t2.filter (fun e => !under (b ++ [.metaDir m]) e.1) with ht3
     have hhead3 : (b ++ [Key.metaDir m]).head? ≠ some .toc := objPath_head hb
-    obtain ⟨hinv, hhok, huser, hobjf⟩ := key t3 True (by simp [hne]) (by
+    obtain ⟨hinv, hhok, huser, hobjf, hmono⟩ := key t3 True (by simp [hne]) (by
         intro q hq hqt
         rw [rawDel_get? h3 q hq, g2 q hq hqt]
         by_cases hq1 : q = objP
@@ -1009,13 +1020,13 @@ theorem delRaw_spec {e : Env} (he : WFEnv e) {s : St} (hi : Inv e s) {h : Handle
       (fun q hq => (rawDel_frame h3 q (by rw [hq]; exact fun h => hhead3 h.symm)).trans (f2 q hq))
       (rawDel_keys h3 (rawDel_keys h2 hk1)) (rawDel_pclosed h3 (rawDel_pclosed h2 hc1))
     refine ⟨⟨t3, s1.c, s1.next⟩, _, delRaw_run_drop h name s _ s1 t2 t3 hst hrun1 (by simpa [hobjP'] using h2) hne
-      (by rw [hbase]; exact h3), hinv, hhok, rfl, step1.next, huser, hobjf⟩
-  · obtain ⟨hinv, hhok, huser, hobjf⟩ := key t2 False (by simp [hne]) (by
+      (by rw [hbase]; exact h3), hinv, hhok, rfl, step1.next, huser, hobjf, hmono⟩
+  · obtain ⟨hinv, hhok, huser, hobjf, hmono⟩ := key t2 False (by simp [hne]) (by
         intro q hq hqt
         rw [g2 q hq hqt]; simp)
       f2 (rawDel_keys h2 hk1) (rawDel_pclosed h2 hc1)
     exact ⟨⟨t2, s1.c, s1.next⟩, _, delRaw_run_keep h name s _ s1 t2 hst hrun1 (by simpa [hobjP'] using h2) hne,
-      hinv, hhok, rfl, step1.next, huser, hobjf⟩
+      hinv, hhok, rfl, step1.next, huser, hobjf, hmono⟩
 
 theorem resolve_name {e : Env} {name : String} {ver : Option Ver} {r : SRef}
     (h : e.resolve name ver = some r) : r.name = name := by
